@@ -95,6 +95,7 @@ def check_C05(c):
 def check_C06(c):
     mc_inflate_core(c)
     c.scenario("trailing")
+    c.scenario("capi_c06")
     return c.finish("model_checking", RULE_DEC, TRUST)
 
 
